@@ -53,7 +53,12 @@ class Gen:
     def text(self, maxlen=30):
         n = self.r.choice(WIDTH_LENS + [self.r.randrange(0, maxlen)]) if self.p(0.15) else self.r.randrange(0, maxlen)
         alphabet = "abcdefghijklmnopqrstuvwxyz0123456789-_.:/# " + ("é中\U0001f600\"\\" if self.p(0.2) else "")
-        return "".join(self.r.choice(alphabet) for _ in range(n))
+        t = "".join(self.r.choice(alphabet) for _ in range(n))
+        if self.p(0.06):
+            # text carried verbatim: line breaks at the end (YAML block scalars), inside, and outer blanks
+            self.features.add("text:line-breaks")
+            t = self.r.choice([t + "\n", t + "\n\n", t + "\r\n", "\n" + t, t[: n // 2] + "\n" + t[n // 2:], " " + t + " ", t + "\t"])
+        return t
 
     def nbytes(self, n):
         return bytes(self.r.randrange(256) for _ in range(n))
@@ -281,7 +286,15 @@ class Gen:
         return {"suit-condition-abort": []}
 
     def cmdseq(self, depth, nest=0, maxlen=6):
-        return [self.command(depth, nest) for _ in range(self.r.randrange(0, maxlen))]
+        seq = [self.command(depth, nest) for _ in range(self.r.randrange(0, maxlen))]
+        if len(seq) >= 2 and self.p(0.2):
+            # two commands of one kind written under one list item (one mapping with two entries): both are emitted, in order
+            i = self.r.randrange(0, len(seq) - 1)
+            (ka,), (kb,) = seq[i], seq[i + 1]
+            if ka != kb and (ka in CONDITIONS) == (kb in CONDITIONS):
+                self.features.add("two-commands-in-one-item")
+                seq[i:i + 2] = [{**seq[i], **seq[i + 1]}]
+        return seq
 
     # ---- text ------------------------------------------------------------------------------------------
     def text_map(self, components):
